@@ -43,7 +43,15 @@ def init(lang='kotlin', wordseed=0, extra_argv=(), bugs=None, patch_hash=True):
             object.__setattr__(o, '_verif_id', next(cnt[0]))
             return o
         _node.Node.__new__ = _n_new
-        _node.Node.__hash__ = lambda self: self._verif_id
+        def _n_hash(self):
+            # objects created before the patch (module-level singletons such as types.Nothing) get their id lazily
+            try:
+                return self._verif_id
+            except AttributeError:
+                i = next(cnt[0])
+                object.__setattr__(self, '_verif_id', i)
+                return i
+        _node.Node.__hash__ = _n_hash
         _state['cnt'] = cnt
     from src.args import args  # noqa: F401  (parses sys.argv, sets cfg, removes reserved words)
     from src import utils
